@@ -96,7 +96,7 @@ def check_qlm(run, pkg, weighted):
     run.ob("R-IDX", fq, f"{v}:row", okrow, "contributions of particle i's bonds are added to row i", show(ev.data["target"][2]), witness=None if okrow else "stored at another particle's row", loc=loc, sound=True)
     shp = Z[2][0] if Z[0] == "call" and Z[1] == "numpy.zeros" and Z[2] else None
     oksh = tri_lazy(lambda: (True if (shp is not None) else None), lambda: (True if (shp[0] == "tuple") else None), lambda: (True if (len(shp[1]) == 2) else None), lambda: eqv(shp[1][0], ("attr", snap, "nparticle")), lambda: (True if (S.decide_equal(S.to_sympy(shp[1][1], lambda t: sp.Symbol("l") if t == LDEG else None), 2 * sp.Symbol("l") + 1)[0] is True) else None), lambda: eqv(kw(Z, "dtype"), ("mod", "numpy.complex128"), ("builtin", "complex")))
-    run.ob("R-ALG", fq, f"{v}:shape", bool(oksh), "per-frame array is complex zeros of shape (nparticle, 2l+1)", show(Z)[:80], witness=None if oksh else "m = -l..l does not fit / real dtype drops phases", loc=loc, sound=True)
+    run.ob("R-ALG", fq, f"{v}:shape", oksh, "per-frame array is complex zeros of shape (nparticle, 2l+1)", show(Z)[:80], witness=None if oksh else "m = -l..l does not fit / real dtype drops phases", loc=loc, sound=True)
     # ---- the harmonic call and its optional weight factor
     val = ev.data["value"]
     call, wfac = val, None
@@ -580,9 +580,12 @@ def check_corr(run, pkg, coarse):
     res = tc[0].data["result"]
     sts = [e for e in stores(it) if e.data["target"] == ("sub", res, C("time_corr"))]
     ls = sp.Symbol("l", positive=True)
-    ok1 = len(sts) >= 2 and sts[0].data["op"] == "*" and S.decide_equal(S.to_sympy(sts[0].data["value"], lambda t: ls if t == LDEG else None), 4 * sp.pi / (2 * ls + 1))[0] is True
+    ok1 = S.decide_equal(S.to_sympy(sts[0].data["value"], lambda t: ls if t == LDEG else None), 4 * sp.pi / (2 * ls + 1))[0] if (len(sts) >= 2 and sts[0].data["op"] == "*") else None
     ok2 = tri_lazy(lambda: (True if (len(sts) >= 2) else None), lambda: (True if (sts[-1].data["op"] == "/") else None), lambda: eqv(sts[-1].data["value"], ("sub", ("attr", res, "loc"), ("tuple", (C(0), C("time_corr"))))))
-    run.ob("R-ALG", fq, f"{tag}:time-norm", bool(ok1 and ok2), "the correlation is scaled by 4 pi/(2l+1) and then divided by its lag-0 value", "; ".join(key_of(e)[:60] for e in sts),
+    if len(sts) == 1 and sts[0].data["op"] == "*" and S.decide_equal(S.to_sympy(sts[0].data["value"], lambda t: ls if t == LDEG else None), 4 * sp.pi / (2 * ls + 1))[0] is True \
+            and not [e for e in it.events if e.kind in ("aug", "store", "assign") and e.seq > sts[0].seq and any(x[0] == "bin" and x[1] == "/" for x in walk(e.data.get("value") or NONE))]:
+        ok1, ok2 = True, False        # scaled but never divided by the lag-zero value
+    run.ob("R-ALG", fq, f"{tag}:time-norm", tri(ok1, ok2), "the correlation is scaled by 4 pi/(2l+1) and then divided by its lag-0 value", "; ".join(key_of(e)[:60] for e in sts),
            witness=None if ok1 and ok2 else "C(0) != 1 / scaling changed", loc=fi.loc(), sound=True)
     sv = calls(it, ".to_csv")
     oks = all(e.data["call"][2][0] == res and e.seq > max(s.seq for s in sts) for e in sv) if sts else False
